@@ -87,6 +87,8 @@ class Case:
         peers = []
         for p, st in zip(cfg["peers"], cfg["states"]):
             pc = dict(p)
+            if cfg.get("shared_ip"):
+                pc["ip"] = "10.1.0.77"      # several Diameter identities on one host: every peer has this one address
             pc["timers"] = {"idle_timeout": 5 if st in ("waiting_dwa", "disconnecting_late_dwa") else 10 ** 6}
             peers.append(pc)
         self.w = World(dict(peers=peers, apps=[dict(a) for a in cfg["apps"]],
@@ -166,7 +168,8 @@ class Case:
         for i, (p, st) in enumerate(zip(self.cfg["peers"], self.cfg["states"])):
             if st == "none":
                 continue
-            sp = h.inbound(ip=f"10.1.0.{i + 1}", port=50000 + i)
+            ip = "10.1.0.77" if self.cfg.get("shared_ip") else f"10.1.0.{i + 1}"
+            sp = h.inbound(ip=ip, port=50000 + i)
             h.settle()
             self.conn[p["name"]] = sp
             if st == "connected":
@@ -175,7 +178,7 @@ class Case:
             h.settle()
             sp.drain()
             if st.startswith("two_conns"):
-                sp2 = h.inbound(ip=f"10.1.0.{i + 1}", port=51000 + i)
+                sp2 = h.inbound(ip=ip, port=51000 + i)
                 h.settle()
                 sp2.send(M.cer(p["name"], p["realm"], auth=auth or [4], acct=acct, hbh=1, e2e=2))
                 h.settle()
@@ -437,6 +440,8 @@ def run_shard(spec):
     rng = random.Random(h64("C10", spec["seed"], spec["name"]))
     for i in range(spec["n"]):
         cfg = make_config(rng)
+        if rng.random() < 0.25:
+            cfg["shared_ip"] = True
         if rng.random() < 0.25:
             cfg["aligned_hbh"] = True
             # ... and sometimes a start value just below the 32-bit wrap: the identifiers cross it
